@@ -39,4 +39,23 @@ theorem panic_reloc (cfg : Cfg) (w : World) (ty n : Nat) (cl : Bool) (m : String
   exact ⟨_, rfl, by simp [World.upd], rfl, rfl⟩
 
 end ExecWithCap
+
+/-- the `resize(n)` of a freshly built (capacity 0) storage can only refuse a request for room that takes memory: `n ≠ 0` and a
+non-zero element size -/
+theorem memResize_panic_needs (nv : VecSt) (n : Nat) (m : String) (hc : nv.cap = 0)
+    (h : nv.memResize n = .panic m) : n ≠ 0 ∧ nv.size ≠ 0 := by
+  refine ⟨?_, ?_⟩
+  · intro hn; subst hn
+    unfold VecSt.memResize at h
+    split at h
+    · simp [VecSt.heapResize, hc] at h
+    · simp [VecSt.relocResize, checkedMul] at h
+    · cases h
+  · intro hs
+    unfold VecSt.memResize at h
+    split at h
+    · simp [VecSt.heapResize, hs] at h
+      split at h <;> cases h
+    · simp [VecSt.relocResize, checkedMul, hs] at h
+    · cases h
 end AnyVec
